@@ -266,7 +266,7 @@ class CoordGeo(object):
         :rtype: CoordTM
         """
         hemi, zone, east, north, psf, gc = geo2grid(self.lat, self.lon,
-                                                    0, ellipsoid)
+                                                    0, ellipsoid, projection)
         if hemi == 'North':
             hemi_north = True
         else:  # hemi == 'South'
@@ -380,7 +380,8 @@ class CoordTM(object):
         else:
             hemi_str = 'south'
         lat, lon, psf, grid_conv = grid2geo(self.zone, self.east, self.north,
-                                            hemi_str, ellipsoid)
+                                            hemi_str, ellipsoid,
+                                            self.projection)
         if notation is DECAngle:
             lat = DECAngle(lat)
             lon = DECAngle(lon)
